@@ -57,6 +57,9 @@ pub fn build(spec: &FontSpec) -> Vec<u8> {
         tables.push((*b"glyf", glyf));
         tables.push((*b"loca", loca));
     }
+    for (t, d) in &spec.raw_tables {
+        tables.push((*t, d.clone()));
+    }
     tables.sort_by(|a, b| a.0.cmp(&b.0));
 
     let num = tables.len();
